@@ -210,7 +210,7 @@ theorem isVB_insert {n : Nat} {t : PT} {key : List Nib} (hu : Uniform n t) (hvb 
     | nil => simp at hk; omega
     | cons k ks => simp [insert, isVB]
 
-theorem uniform_insert {n : Nat} {t : PT} {key : List Nib} (hu : Uniform n t) (hk : key.length = n)
+theorem insert_uniform {n : Nat} {t : PT} {key : List Nib} (hu : Uniform n t) (hk : key.length = n)
     (v : Bytes) (w : Nat) : Uniform n (insert t key v w) := by
   induction t generalizing n key with
   | none =>
@@ -269,7 +269,7 @@ def insVal (old : Option (Bytes × Nat)) (v : Bytes) (w : Nat) : Bytes × Nat :=
   | some (v', w') => if v' = v then (v', w') else (v, w)
   | Option.none => (v, w)
 
-theorem lookup_insert {n : Nat} {t : PT} {key q : List Nib} (hu : Uniform n t) (hk : key.length = n)
+theorem insert_lookup {n : Nat} {t : PT} {key q : List Nib} (hu : Uniform n t) (hk : key.length = n)
     (hq : q.length = n) (v : Bytes) (w : Nat) :
     lookup (insert t key v w) q = if q = key then some (insVal (lookup t key) v w) else lookup t q := by
   induction t generalizing n key q with
@@ -458,9 +458,7 @@ theorem lookup_short_short (s s2 : List Nib) (cc : PT) (q : List Nib) :
   rw [lookup_short, lookup_short]
   by_cases hp : s <+: q
   · obtain ⟨q2, rfl⟩ := hp
-    have : (s ++ q2).drop (s ++ s2).length = q2.drop s2.length := by
-      rw [List.length_append, ← List.drop_drop]; simp
-    simp [lookup_short, List.prefix_append_right_inj, this]
+    simp [lookup_short, List.prefix_append_right_inj]
   · have : ¬ (s ++ s2) <+: q := fun h => hp ((List.prefix_append _ _).trans h)
     simp [hp, this]
 
@@ -535,7 +533,7 @@ theorem delete_spec {n : Nat} {t : PT} {key : List Nib} (hu : Uniform n t) (hk :
           by_cases hqs : q = s ++ []
           · simp [hqs]
           · have : ¬ s <+: q := fun hp => hqs (by simpa using (hp.eq_of_length (by simp at hk; omega)).symm)
-            simp [hqs, this]
+            simp [this]
       · simp only [hK, if_false]
         -- the common step: replacing `c` by `t''` below the short node
         have step : ∀ t'' : PT, (∀ q2 : List Nib, q2.length = n - s.length →
@@ -615,6 +613,7 @@ theorem delete_spec {n : Nat} {t : PT} {key : List Nib} (hu : Uniform n t) (hk :
               simp [hlk qs (by omega)]
             · simp [h]
         refine ⟨_, rfl, hl, ?_⟩
+        dsimp only
         split
         · exact ⟨hub, hlb⟩
         · split
@@ -624,5 +623,203 @@ theorem delete_spec {n : Nat} {t : PT} {key : List Nib} (hu : Uniform n t) (hk :
             exact ⟨h1, fun q hq => by rw [h2 q]; exact hlb q hq⟩
 
 end PT
+
+/-! ### main statements -/
+
+section Main
+variable {n : Nat} {t : PT} {key q : List Nib}
+
+/-- 1. insert keeps the tree uniform -/
+theorem uniform_insert (hu : Uniform n t) (hk : key.length = n) (v : Bytes) (w : Nat) :
+    Uniform n (t.insert key v w) := PT.insert_uniform hu hk v w
+
+/-- 2. insert is a map update (with `PT.insVal`: an equal value keeps the old weight) -/
+theorem lookup_insert_insVal (hu : Uniform n t) (hk : key.length = n) (hq : q.length = n) (v : Bytes) (w : Nat) :
+    (t.insert key v w).lookup q = if q = key then some (PT.insVal (t.lookup key) v w) else t.lookup q :=
+  PT.insert_lookup hu hk hq v w
+
+theorem insVal_eq (old : Option (Bytes × Nat)) (v : Bytes) (w : Nat) :
+    PT.insVal old v w = if old.map (·.1) = some v then old.get! else (v, w) := by
+  cases old with
+  | none => simp [PT.insVal]
+  | some p =>
+    obtain ⟨v', w'⟩ := p
+    simp only [PT.insVal, Option.map_some, Option.some.injEq, Option.get!_some]
+
+theorem lookup_insert (hu : Uniform n t) (hk : key.length = n) (hq : q.length = n) (v : Bytes) (w : Nat) :
+    (t.insert key v w).lookup q =
+      if q = key then some (if (t.lookup key).map (·.1) = some v then (t.lookup key).get! else (v, w))
+      else t.lookup q := by
+  rw [lookup_insert_insVal hu hk hq, insVal_eq]
+
+theorem lookup_insert_other (hu : Uniform n t) (hk : key.length = n) (hq : q.length = n) (hne : q ≠ key)
+    (v : Bytes) (w : Nat) : (t.insert key v w).lookup q = t.lookup q := by
+  rw [lookup_insert_insVal hu hk hq, if_neg hne]
+
+/-- the inserted key is bound to `(v, w)` unless it was bound to the same value before -/
+theorem lookup_insert_same (hu : Uniform n t) (hk : key.length = n) (v : Bytes) (w : Nat)
+    (hold : ∀ w', t.lookup key ≠ some (v, w')) : (t.insert key v w).lookup key = some (v, w) := by
+  rw [lookup_insert_insVal hu hk hk, if_pos rfl]
+  cases h : t.lookup key with
+  | none => simp [PT.insVal]
+  | some p =>
+    obtain ⟨v', w'⟩ := p
+    have : v' ≠ v := fun e => hold w' (by rw [h, e])
+    simp [PT.insVal, this]
+
+/-- re-inserting the value already bound keeps the old binding (and its weight) -/
+theorem lookup_insert_eq_value (hu : Uniform n t) (hk : key.length = n) (v : Bytes) (w w' : Nat)
+    (hold : t.lookup key = some (v, w')) : (t.insert key v w).lookup key = some (v, w') := by
+  rw [lookup_insert_insVal hu hk hk, if_pos rfl, hold]
+  simp [PT.insVal]
+
+/-- the value component after insert is always `v` -/
+theorem lookup_insert_value (hu : Uniform n t) (hk : key.length = n) (v : Bytes) (w : Nat) :
+    ((t.insert key v w).lookup key).map (·.1) = some v := by
+  rw [lookup_insert_insVal hu hk hk, if_pos rfl]
+  cases h : t.lookup key with
+  | none => simp [PT.insVal]
+  | some p =>
+    obtain ⟨v', w'⟩ := p
+    by_cases e : v' = v <;> simp [PT.insVal, e]
+
+/-- 3. delete reports not-found exactly for absent keys -/
+theorem delete_none_iff (hu : Uniform n t) (hk : key.length = n) :
+    t.delete key = none ↔ t.lookup key = none := by
+  rcases PT.delete_spec hu hk with ⟨hd, hl⟩ | ⟨t', hd, hl, _, _⟩
+  · simp [hd, hl]
+  · simp [hd, hl]
+
+/-- 4. delete keeps the tree uniform and removes exactly `key` -/
+theorem uniform_delete {t' : PT} (hu : Uniform n t) (hk : key.length = n) (hd : t.delete key = some t') :
+    Uniform n t' := by
+  rcases PT.delete_spec hu hk with ⟨hd', _⟩ | ⟨t'', hd', _, h, _⟩
+  · rw [hd'] at hd; cases hd
+  · rw [hd'] at hd; cases hd; exact h
+
+theorem lookup_delete {t' : PT} (hu : Uniform n t) (hk : key.length = n) (hq : q.length = n)
+    (hd : t.delete key = some t') : t'.lookup q = if q = key then none else t.lookup q := by
+  rcases PT.delete_spec hu hk with ⟨hd', _⟩ | ⟨t'', hd', _, _, h⟩
+  · rw [hd'] at hd; cases hd
+  · rw [hd'] at hd; cases hd; exact h q hq
+
+theorem delete_isSome_iff (hu : Uniform n t) (hk : key.length = n) :
+    (t.delete key).isSome ↔ (t.lookup key).isSome := by
+  rcases PT.delete_spec hu hk with ⟨hd, hl⟩ | ⟨t', hd, hl, _, _⟩
+  · simp [hd, hl]
+  · simp [hd, Option.isSome_iff_ne_none, hl]
+
+end Main
+
+/-- only keys of length `n` are bound in a uniform tree -/
+theorem lookup_length {n : Nat} {t : PT} {q : List Nib} {r : Bytes × Nat} (hu : Uniform n t)
+    (hl : t.lookup q = some r) : q.length = n := by
+  induction t generalizing n q with
+  | none => simp [PT.lookup] at hl
+  | value vv vw =>
+    simp only [Uniform] at hu
+    cases q with
+    | nil => simp [hu]
+    | cons j qs => simp [PT.lookup] at hl
+  | short sk c ih =>
+    obtain ⟨s, rfl⟩ := exists_nibs sk hu.2.1
+    obtain ⟨hs, hle, hvb, huc⟩ := uniform_short_iff.mp hu
+    rw [PT.lookup_short] at hl
+    by_cases hp : s <+: q
+    · obtain ⟨q2, rfl⟩ := hp
+      simp only [List.prefix_append, if_true, List.drop_left] at hl
+      have := ih huc hl
+      simp; omega
+    · simp [hp] at hl
+  | branch ch ih =>
+    simp only [Uniform] at hu
+    cases q with
+    | nil => simp [PT.lookup] at hl
+    | cons j qs =>
+      rw [PT.lookup_branch_cons] at hl
+      have := ih j (hu.2 j) hl
+      simp; omega
+
+/-! ### entries versus lookup -/
+
+theorem mem_entries_iff {n : Nat} {t : PT} (hu : Uniform n t) (k v : Bytes) (w : Nat) :
+    (k, v, w) ∈ t.entries ↔ ∃ key : List Nib, key.length = n ∧ k = key.map nb ∧ t.lookup key = some (v, w) := by
+  induction t generalizing n k with
+  | none => simp [PT.entries, PT.lookup]
+  | value vv vw =>
+    simp only [Uniform] at hu
+    subst hu
+    simp only [PT.entries, List.mem_singleton, Prod.mk.injEq]
+    constructor
+    · rintro ⟨rfl, rfl, rfl⟩; exact ⟨[], rfl, rfl, by simp [PT.lookup]⟩
+    · rintro ⟨key, hk, rfl, hl⟩
+      have : key = [] := List.eq_nil_of_length_eq_zero hk
+      subst this
+      simp only [PT.lookup, Option.some.injEq, Prod.mk.injEq] at hl
+      exact ⟨rfl, hl.1.symm, hl.2.symm⟩
+  | short sk c ih =>
+    obtain ⟨s, rfl⟩ := exists_nibs sk hu.2.1
+    obtain ⟨hs, hle, hvb, huc⟩ := uniform_short_iff.mp hu
+    simp only [PT.entries, List.mem_map]
+    constructor
+    · rintro ⟨⟨k', v', w'⟩, hm, he⟩
+      simp only [Entry.prepend, Prod.mk.injEq] at he
+      obtain ⟨rfl, rfl, rfl⟩ := he
+      obtain ⟨key', hk', rfl, hl'⟩ := (ih huc k').mp hm
+      exact ⟨s ++ key', by simp; omega, by simp, by rw [PT.lookup_short_append]; exact hl'⟩
+    · rintro ⟨key, hk, rfl, hl⟩
+      rw [PT.lookup_short] at hl
+      by_cases hp : s <+: key
+      · obtain ⟨key', rfl⟩ := hp
+        simp only [List.prefix_append, if_true, List.drop_left] at hl
+        refine ⟨(key'.map nb, v, w), (ih huc _).mpr ⟨key', by simp at hk; omega, rfl, hl⟩, ?_⟩
+        simp [Entry.prepend]
+      · simp [hp] at hl
+  | branch ch ih =>
+    simp only [Uniform] at hu
+    simp only [PT.entries, List.mem_flatMap, List.mem_map]
+    constructor
+    · rintro ⟨i, _, ⟨k', v', w'⟩, hm, he⟩
+      simp only [Entry.prepend, Prod.mk.injEq] at he
+      obtain ⟨rfl, rfl, rfl⟩ := he
+      obtain ⟨key', hk', rfl, hl'⟩ := (ih i (hu.2 i) k').mp hm
+      exact ⟨i :: key', by simp; omega, by simp, by rw [PT.lookup_branch_cons]; exact hl'⟩
+    · rintro ⟨key, hk, rfl, hl⟩
+      cases key with
+      | nil => simp [PT.lookup] at hl
+      | cons i key' =>
+        rw [PT.lookup_branch_cons] at hl
+        refine ⟨i, List.mem_finRange i, (key'.map nb, v, w),
+          (ih i (hu.2 i) _).mpr ⟨key', by simp at hk; omega, rfl, hl⟩, ?_⟩
+        simp [Entry.prepend]
+
+theorem keys_prepend (sk : Bytes) (es : List Entry) :
+    (es.map (Entry.prepend sk)).map (·.1) = (es.map (·.1)).map (sk ++ ·) := by
+  simp [List.map_map, Function.comp_def, Entry.prepend]
+
+theorem nodup_keys_prepend (sk : Bytes) (es : List Entry) (h : (es.map (·.1)).Nodup) :
+    ((es.map (Entry.prepend sk)).map (·.1)).Nodup := by
+  rw [keys_prepend]
+  exact List.Pairwise.map _ (fun a b hab => by simpa using hab) h
+
+/-- the keys of the entry list are pairwise distinct (no uniformity needed) -/
+theorem entries_keys_nodup (t : PT) : (t.entries.map (·.1)).Nodup := by
+  induction t with
+  | none => simp [PT.entries]
+  | value vv vw => simp [PT.entries]
+  | short sk c ih => exact nodup_keys_prepend sk _ ih
+  | branch ch ih =>
+    simp only [PT.entries, List.map_flatMap]
+    unfold List.Nodup
+    rw [List.pairwise_flatMap]
+    refine ⟨fun i _ => nodup_keys_prepend [nb i] _ (ih i), ?_⟩
+    refine (List.nodup_finRange 16).imp ?_
+    intro i j hij x hx y hy
+    rw [keys_prepend] at hx hy
+    obtain ⟨x', _, rfl⟩ := List.mem_map.mp hx
+    obtain ⟨y', _, rfl⟩ := List.mem_map.mp hy
+    intro h
+    simp only [List.cons_append, List.nil_append, List.cons.injEq] at h
+    exact hij (nb_injective h.1)
 
 end Verif.Wmpt
